@@ -1,7 +1,8 @@
 --------------------------- MODULE HtmlSkipTrace ---------------------------
 (* code -> spec for C17.  One event = one document pushed through one entry point of the
    library:   [a |-> "Obs", w |-> wrapper, eof |-> BOOLEAN, toks |-> token string,
-               seen |-> positions whose unique word occurs in the extracted text]
+               seen |-> positions whose unique word occurs in ANY text-bearing accessor of the result,
+               seq  |-> positions of the words found in the MAIN text, in order of occurrence there]
    TLC classifies the token string with HtmlSkip!Class and accepts the event iff every MUST
    word was seen and no MUSTNOT word was seen.
    Wrapper "eml": README ("Returns body_plain when present, else body_html") documents that an
@@ -21,7 +22,7 @@ Traces == JsonDeserialize(IOEnv.TRACE_FILE)
 VARIABLES tid, l
 vars == <<tid, l>>
 
-Wrappers    == {"html", "mhtml_b64", "mhtml_qp", "msg", "msgfile", "epub", "eml"}
+Wrappers    == {"html", "mhtml_b64", "mhtml_qp", "mhtml_raw", "msg", "msgfile", "epub", "eml"}
 RawWrappers == {"eml"}
 
 Ev == Traces[tid].ev[l]
@@ -32,13 +33,20 @@ SeenSet(e) == { e.seen[j] : j \in 1..Len(e.seen) }
 XmlWrappers == {"epub"}                                   \* chapters are application/xhtml+xml: XML dialect
 ClassFor(e) == H!ClassX(e.toks, e.w \in XmlWrappers)
 
+SeqOK(e) == /\ \A j \in 1..Len(e.seq) : e.seq[j] \in 1..Len(e.toks)
+            /\ \A i \in 1..Len(e.seq) : \A j \in 1..Len(e.seq) : i # j => e.seq[i] # e.seq[j]
+
 Verdict(e) == LET cls == ClassFor(e) IN
-              IF e.w \in RawWrappers THEN H!ConformsRaw(cls, SeenSet(e)) ELSE H!Conforms(cls, SeenSet(e))
+              /\ IF e.w \in RawWrappers THEN H!ConformsRaw(cls, SeenSet(e)) ELSE H!Conforms(cls, SeenSet(e))
+              /\ H!OrderOK(cls, e.seq)
+
+WellEvent(e) == /\ e.w \in Wrappers
+                /\ H!WellFormed(e.toks)
+                /\ SeenSet(e) \subseteq 1..Len(e.toks)
+                /\ SeqOK(e)
 
 TraceObs == /\ IsEvent("Obs")
-            /\ Ev.w \in Wrappers
-            /\ H!WellFormed(Ev.toks)
-            /\ SeenSet(Ev) \subseteq 1..Len(Ev.toks)
+            /\ WellEvent(Ev)
             /\ Verdict(Ev)
 
 TraceInit == tid \in 1..Len(Traces) /\ l = 1
@@ -52,7 +60,8 @@ TraceAccept ==
 (* Explain mode (diagnosis of rejected traces only): never blocks; prints, for every event the
    specification rejects, the expected classification so that the report can show it.       *)
 ExplainObs == /\ IsEvent("Obs")
-              /\ (~Verdict(Ev)) => PrintT(<<"BAD", tid, l, ClassFor(Ev)>>)
+              /\ (~WellEvent(Ev)) => PrintT(<<"MALFORMED", tid, l>>)
+              /\ (WellEvent(Ev) /\ ~Verdict(Ev)) => PrintT(<<"BAD", tid, l, ClassFor(Ev)>>)
 ExplainSpec == TraceInit /\ [][ExplainObs]_vars
 
 (* Model-agreement mode (self-test of the ALGORITHM part, never part of the verdict): the observed
